@@ -6,6 +6,10 @@ import mpmath
 TAGS = {1: "A1(a~1 closed form)", 2: "Tiny(b<=1e-28)", 3: "Big(a>=500)", 4: "Conv", 5: "Fuel(no convergence)"}
 
 
+def P(a, x):
+    return mpmath.gammainc(a, 0, x, regularized=True)
+
+
 def grid(rng, tier):
     top = 1.0 - 2.0**-53
     a_vals = set()
@@ -19,17 +23,33 @@ def grid(rng, tier):
     p_vals = [0.0, 5e-324, 2.0**-1022, 2.0**-53, 1e-300, 1e-100, 1e-30, 1e-16, 1e-10, 1e-6, 1e-3, 0.01, 0.1, 0.25,
               math.nextafter(0.5, 0), 0.5, math.nextafter(0.5, 1), 0.75, 0.9, 0.99, 0.999999, 1 - 1e-10, 1 - 1e-16, top, math.nextafter(top, 0)]
     cases = []
+    mpmath.mp.dps = 30
     for a in sorted(a_vals):
         ps = list(p_vals) + [rng.unit() for _ in range(4 if tier == "quick" else 10)]
+        # p chosen from the algorithm's own branch variables, not only from a grid:
+        #  b = (1-p) Gamma(a) at each threshold of the starting-value selection (a < 1, and the tail branch for a >= 1),
+        #  and p = P(a, a(1+delta)) so that the Cornish-Fisher estimate w is within 1e-6 (and just outside) of a,
+        #  and p = P(a, 3a(1+-delta)) for the w < 3a split
+        ga = float(mpmath.gamma(a))
+        for thr in (0.6, 0.45, 0.35, 0.15, 0.01, 1e-28, 1e-7 ** 0.5):
+            pp = 1.0 - thr / ga
+            for q_ in ulp_neighbors(pp):
+                if 0.0 <= q_ < 1.0:
+                    ps.append(q_)
+        if a >= 1.0:
+            for delta in (0.0, 2e-7, -2e-7, 8e-7, -8e-7, 3e-6, -3e-6):
+                ps.append(float(P(mpmath.mpf(a), mpmath.mpf(a) * (1 + delta))))
+            for delta in (0.0, 1e-3, -1e-3):
+                pp = float(P(mpmath.mpf(a), 3 * mpmath.mpf(a) * (1 + delta)))
+                if pp < 1.0:
+                    ps.append(pp)
         if tier == "quick":
-            ps = [p for i, p in enumerate(ps) if (i + int(a * 1000)) % 2 == 0 or p in (0.0, top)]
+            ps = [p for i, p in enumerate(ps) if i >= len(p_vals) or (i + int(a * 1000)) % 2 == 0 or p in (0.0, top)]
         for p in ps:
             cases.append(dict(a=f2b(a), p=f2b(p), n=50, eps=f2b(5.0)))
     return cases
 
 
-def P(a, x):
-    return mpmath.gammainc(a, 0, x, regularized=True)
 
 
 def run(rep, rng, tier, replay=None):
@@ -49,7 +69,7 @@ def run(rep, rng, tier, replay=None):
     model = run_model("C12", [], TC.PRELUDE, exprs, batch=40)
     mpmath.mp.dps = 40
     exits, outcomes = {}, {}
-    nacc = 0
+    nacc = nerr_dom = 0
     known = known_findings("C12")
     for c, o, m in zip(cases, res, model):
         a, p = b2f(c["a"]), b2f(c["p"])
@@ -78,6 +98,11 @@ def run(rep, rng, tier, replay=None):
             rep.violation("property", "inverse_gamma_lr(a=%r, p=%r) panics: %s" % (a, p, real["panic"][:100]), case=c, failing_input=True, what="panic on the documented domain")
             continue
         if io[0] != "ok":
+            # "whenever the true quantile is at least 1e-13 it returns a value"
+            if 0 < p < 1 and P(mpmath.mpf(a), mpmath.mpf(1e-13)) <= p:
+                nerr_dom += 1
+                rep.violation("property", "inverse_gamma_lr(a=%r, p=%r) returns an error although the true quantile is at least 1e-13" % (a, p), case=c, failing_input=True,
+                              what="error where a value is required")
             continue
         lam = b2f(io[1])
         if not (math.isfinite(lam) and lam > 0):
@@ -97,6 +122,6 @@ def run(rep, rng, tier, replay=None):
     rep.cov["outcome_histogram"] = outcomes
     rep.cov["accuracy_checked"] = nacc
     rep.cov["rule"] = ("a: log-spaced grid on [0.05,100] plus every branch threshold of the starting-value selection +-1ulp (0.3, 1, 1+-1e-8, ...) plus random draws; p: 0, 2^-1074, "
-                       "2^-1022, 2^-53, 1e-300..1e-3, 0.5+-ulp, ..., 1-1e-16, 1-2^-53 and its predecessor, random draws. Result bits and outcome of the real function vs the Coq "
+                       "2^-1022, 2^-53, 1e-300..1e-3, 0.5+-ulp, ..., 1-1e-16, 1-2^-53 and its predecessor, random draws; plus p placed at the algorithm's own branch variables (b = (1-p)Gamma(a) at each threshold +-1ulp, w within and just outside 1e-6 of a, w at 3a). Result bits and outcome of the real function vs the Coq "
                        "transcription (all six external functions answered by statrs/libm through the recorded table; exit tags reported), then on the real result: finite and > 0, "
                        "|P(a,lambda)-p| <= 2e-8 with mpmath at 40 digits whenever P(a,1e-13) <= p. non-trivial = the iteration ran (exit Conv or Fuel)")
